@@ -4,7 +4,7 @@ import re
 import hashlib
 from vx.extract import Unit, src, REPO
 from vx.rsscan import LostAnchor
-from .fieldc import field_params, parse_int_array, limbs_to_int, FIELDS
+from .fieldc import field_params, parse_int_array, resolve_int_array, limbs_to_int, FIELDS
 
 # prime factorisations of p - 1 (certificates: the product is re-checked by compute; primality of the factors is M-PRIME)
 FACTORS = {
@@ -146,7 +146,7 @@ def field_lemmas(g, f):
     if f == "fr":
         a = src("src/fields/fr/arkworks.rs")
         it = a.find_const("impl Field for Fr", "SQRT_PRECOMP")
-        v = limbs_to_int(parse_int_array(it.text))
+        v = limbs_to_int(resolve_int_array(it.text, ["src/fields/fr/arkworks.rs", "src/fields/fr.rs"]))
         g.add("c17_fr_SQRT_PRECOMP", f"4 * {I(v)} == {I(P)} + 1", pr + ("C09",), "Case3Mod4: (r+1)/4", "src/fields/fr/arkworks.rs", it)
 
 
